@@ -17,13 +17,14 @@
 (* The pool (harness/cmd/worker/cacheseq.go): schemas that are their own   *)
 (* root with local definitions (same pointer, different content), two      *)
 (* schemas carrying the SAME id with different content, references into    *)
-(* another document, a document whose whole content is null.               *)
+(* another document, a document whose whole content is null, a schema with *)
+(* an anchor-style id, a document that does not decode.                    *)
 (***************************************************************************)
 EXTENDS Naturals, Sequences, FiniteSets, TLC, Json, SequencesExt
 
 CONSTANTS MaxLen, Mode, InFile, OutFile
 
-Pool == {"A1", "A2", "B", "B2", "C1", "C2", "N", "E"}
+Pool == {"A1", "A2", "B", "B2", "C1", "C2", "N", "W", "V", "X", "E"}
 Apis == {"ExpandSchema", "WithBasePath"}
 
 RECURSIVE Seqs(_)
